@@ -120,4 +120,88 @@ theorem planOf_bytes (o : EbOpts) (atts : Array Attribute) (conn : ConnEnc) (cs 
   rw [hhead, ← hctrl]
   simp only [List.flatMap_map, List.cons_append, List.nil_append, List.append_assoc]
 
+theorem encodeItem_ids (ch : EbChoices) (o : EbOpts) (g : Geometry) (e : Nat) (mdata : MeshData) (pids : Array Nat)
+    (parent : Option ParentAtt) (s : SeqEncSt) (pt : Array Int × Bytes) (it : EncItem)
+    (h : encodeItem ch o g e mdata pids parent s pt = .ok it) : it.attId = s.attId ∧ it.kind = s.kind := by
+  unfold encodeItem at h
+  simp only [] at h
+  split at h
+  · rename_i hk
+    rw [bind_ok_iff] at h
+    obtain ⟨rows, _, h⟩ := h
+    simp only [pure, Except.pure, Except.ok.injEq] at h
+    subst h
+    exact ⟨rfl, by have : s.kind = 0 := by simpa using hk
+                   exact this.symm⟩
+  · rw [bind_ok_iff] at h
+    obtain ⟨⟨sch, vb⟩, _, h⟩ := h
+    simp only [pure, Except.pure, Except.ok.injEq] at h
+    subst h
+    exact ⟨rfl, rfl⟩
+
+/-- the shape facts from the encoder run, given the relation between `attIds` and `encs` of a controller
+    (`generateControllers`) -/
+theorem ctrlShape_of_run (ch : EbChoices) (o : EbOpts) (g : Geometry) (conn : ConnEnc) (cs : Array Controller) (anp : Bool)
+    (posId : Option Nat) (e : Nat) (p : Option ParentAtt) (c : CtrlOut)
+    (hg1 : (cs[e]!).encs.toList.map (·.attId) = (cs[e]!).attIds.toList)
+    (h : encodeController ch o g conn cs anp posId e p = .ok c) : CtrlShape g.atts.toArray cs c := by
+  obtain ⟨pts, items, _, _, hpts, hitems, hci, hctrl⟩ := encodeController_spec ch o g conn cs anp posId e p c h
+  have hl := portablePass_length o g anp posId c.seq.pointIds _ p pts c.parent hpts
+  obtain ⟨i1, i2⟩ := encodePass_spec ch o g e _ c.seq.pointIds c.parent _ pts items hl hitems
+  have hitemsL : c.items.toList = items := by rw [hci]
+  have key : items.map (·.attId) = (cs[e]!).encs.toList.map (·.attId) ∧
+      items.map (·.kind) = (cs[e]!).encs.toList.map (·.kind) := by
+    constructor <;>
+    · apply List.ext_getElem
+      · simp [i1]
+      · intro k h1 h2
+        simp only [List.getElem_map]
+        have hk : k < (cs[e]!).encs.toList.length := by simpa using h2
+        have := encodeItem_ids ch o g e _ c.seq.pointIds c.parent _ _ _
+          (i2 k hk (by rw [hl]; exact hk) (by rw [i1]; exact hk))
+        first | exact this.1 | exact this.2
+  exact ⟨by rw [hctrl, hitemsL, key.1, hg1], by rw [hctrl, hitemsL, key.2]⟩
+
+theorem chain_shape {ch : EbChoices} {o : EbOpts} {g : Geometry} {conn : ConnEnc} {cs : Array Controller} {anp : Bool}
+    {posId : Option Nat} (hg1 : ∀ e : Nat, (cs[e]!).encs.toList.map (·.attId) = (cs[e]!).attIds.toList) :
+    ∀ {es : List Nat} {p : Option ParentAtt} {couts : List CtrlOut},
+    CtrlChain ch o g conn cs anp posId es p couts → ∀ c ∈ couts, CtrlShape g.atts.toArray cs c := by
+  intro es p couts h
+  induction h with
+  | nil => intro c hc; cases hc
+  | cons e es p c cs' hc _ ih =>
+    intro c' hc'
+    rcases List.mem_cons.mp hc' with rfl | hm
+    · exact ctrlShape_of_run ch o g conn cs anp posId e p _ (hg1 e) hc
+    · exact ih c' hm
+
+/-- **the complete decoder on the encoder's stream**: given the connectivity link (`hconn`: the decoder's
+    connectivity stage reads the encoder's connectivity bytes and builds `mesh`) and `PlanOK` for the plan made of the
+    encoder's items and the decoder's sequences / point maps, `decodeGeometry` consumes exactly the stream and returns
+    the geometry the plan describes, with the metadata -/
+theorem eb_stream_decodes (ch : EbChoices) (g : Geometry) (md : Option GeometryMetadata) (o : EbOpts) (enc : Encoded)
+    (henc : encodeEdgebreaker ch g md o = .ok enc) (hmd : ∀ m, md = some m → m.WF')
+    (opts : DecOpts) (mesh : Mesh) (sides : List (SeqOut × Array Nat)) (hsides : enc.couts.size = sides.length)
+    (hconn : ∀ coder, traversalCoder o g.faces.length = some coder →
+      Runs decodeConnectivity 514 ([coder] ++ enc.conn.bytes) mesh 514)
+    (hg1 : ∀ e : Nat, (enc.controllers[e]!).encs.toList.map (·.attId) = (enc.controllers[e]!).attIds.toList)
+    (hsize : enc.order.size = enc.controllers.size)
+    (hok : PlanOK opts mesh (planOf o g.atts.toArray enc.conn enc.controllers enc.couts.toList sides)) :
+    Runs (decodeGeometry opts) 0 enc.bytes
+      ⟨{ isMesh := true, numPoints := mesh.numPoints, faces := facesOf mesh,
+         atts := (planOf o g.atts.toArray enc.conn enc.controllers enc.couts.toList sides).attributes opts }, md⟩ 514 := by
+  obtain ⟨mdBytes, coder, posFaces, acv, cs, couts, h1, h2, h3, h4, h5, h6, h7, h8, h9, h10, h11, h12, h13, h14⟩ :=
+    (encodeEdgebreaker_stages ch g md o enc henc).stages
+  have hchain := encodeControllers_chain ch o g enc.conn cs _ _ _ _ _ h8
+  rw [h9] at hg1 hsize hok
+  rw [h10] at hsides hok
+  simp only [] at hok
+  have hshape := chain_shape (g := g) hg1 hchain
+  have hbytes := planOf_bytes o g.atts.toArray enc.conn cs enc.order couts sides (by simpa using hsides)
+    (chain_ctrl hchain) hsize h6 hshape
+  rw [h11, ← hbytes]
+  rw [h9, h10]
+  simp only []
+  exact runs_decodeGeometry_eb opts md mdBytes _ _ mesh _ hmd h1 (hconn coder h2) (runs_decodeAttributes opts mesh _ hok)
+
 end Draco.EbEnc
